@@ -62,6 +62,23 @@ def handle (toks : List String) : Option String :=
       let target ← floatOfHex target; let minC ← floatOfHex minC
       let sched ← sched.mapM floatOfHex
       pure (fmtRgb (genAccessible floatLeaf (descendImpl floatLeaf) t bg target minC sched))
+  | ["witness", r, g, b, r2, g2, b2, minC, n] => do
+      -- independent scan of the text's OKLCH lightness line for a barely perceptible fix (C03)
+      let t ← rgbOf r g b; let bg ← rgbOf r2 g2 b2; let minC ← floatOfHex minC; let n ← n.toNat?
+      let (_, c, h) := rgbToOklchSafe (α := Float) t
+      let mut best : Option (RGB × Float × Float) := none
+      for i in [0:n+1] do
+        let L := i.toFloat / n.toFloat
+        let cand := oklchToRgbSafe (L, c, h)
+        let d := deltaE2000 (α := Float) t cand
+        let k := contrastRatio (α := Float) cand bg
+        if d <= 1.5 && k >= minC + 0.05 then
+          match best with
+          | some (_, d0, _) => if d < d0 then best := some (cand, d, k)
+          | none => best := some (cand, d, k)
+      match best with
+      | some (c, d, k) => pure s!"{fmtRgb c} {hexOfFloat d} {hexOfFloat k}"
+      | none => pure "none"
   | ["pmod", x, y] => do
       let x ← floatOfHex x; let y ← floatOfHex y; pure (hexOfFloat (Num.pmod x y))
   | ["round", x] => do let x ← floatOfHex x; pure (toString (Num.roundHE x))
